@@ -30,7 +30,7 @@ def payload(tier, seed):
                 "hashseeds": [0, 1, 12345], "purity_sample": 9000}
     return {"mode": "run", "seed": seed, "workers": 16,
             "exhaustive2": [{"leaves": "mini"}, {"leaves": "core"}, {"leaves": "full", "onesided": True}],
-            "random": [{"depth": 3, "n": 8000}, {"depth": 4, "n": 8000}, {"depth": 5, "n": 8000}, {"depth": 6, "n": 4000}],
+            "random": [{"depth": 3, "n": 12000}, {"depth": 4, "n": 12000}, {"depth": 5, "n": 12000}, {"depth": 6, "n": 8000}],
             "hashseeds": [0, 1, 12345]}
 
 
@@ -42,6 +42,9 @@ def check(run):
             raise CheckerError("rt_c12.py returned no %r: %s" % (k, res.get("_log_tail", "")[-800:]))
     if res["cases"] == 0 or res["distinct"] == 0:
         raise CheckerError("rt_c12.py checked no non-trivial expression (vacuous run)")
+    skipped = sum(g["skipped"] for g in res["groups"])
+    if skipped > 0.02 * max(1, res["cases"]):
+        raise CheckerError("rt_c12.py skipped %d of %d expressions for lack of time or memory (machine overloaded?)" % (skipped, res["cases"] + skipped))
     for g in res["groups"]:
         run.add_bounded("parse(doprint(e)) == e at 5 points, both readers; doprint repeatable in-process [%s]" % g["name"], FUNCTION,
                         g["bound"], g["cases"], g["distinct"], g["failures"],
